@@ -140,6 +140,11 @@ def update_sequence(spec, label):
         return ["schedules", "all"]
     if label.startswith("inconsistency scenario_") or " scenarios.capnpbin" in label:
         return ["scenarios,schedules", "all"]
+    # a DELETED collection file: first the refresh of that collection alone (the collection is then empty, the data status must
+    # name it and no request is routed on the references other collections still hold into it), then names=all
+    if spec["kind"] == "delete" and isinstance(spec["target"], str) and spec["target"].startswith("coll:") \
+            and spec["target"][5:] in ("agencies", "services", "nodes", "lines", "paths"):
+        return [spec["target"][5:], "all"]
     return ["all"]
 
 
@@ -278,11 +283,11 @@ def run_history(binary, spec, workdir, san=False, keep_on_failure=True):
                          answer_of_fresh_server=f1[i], stale=(a1[i] == a0[i]), log=old.log_tail(3000))
             if dead(old, "the refreshed server", "requests after the fault '%s' and /updateCache?names=%s" % (label, names)):
                 break
-            if names == "all" and len(concrete) >= 1 and concrete[0][0] == "delete":
+            if (names == "all" or names + ".capnpbin" == concrete[0][1]) and len(concrete) >= 1 and concrete[0][0] == "delete":
                 want = DELETE_EXPECT.get("lines/*" if spec["target"] == "all_linefiles" else concrete[0][1])
                 wrong = [a for a in a1 if want and answer_class(a) != "data_error " + want]
                 if wrong:
-                    fail("'%s' then /updateCache?names=all: the answer does not name the missing kind of data (%s expected): %s" % (label, want, wrong[0][:160]),
+                    fail("'%s' then /updateCache?names=%s: the answer does not name the missing kind of data (%s expected): %s" % (label, names, want, wrong[0][:160]),
                          phase="after all", answers_after_refresh=a1, answers_of_fresh_server=f1)
         if generic and a1 is not None and old.alive():
             # history independence: another healthy server, other data, same faulted files, same refresh
